@@ -160,6 +160,36 @@ def cli(argv, stdin):
     return r
 
 
+def to_bytes(u):
+    """text -> the bytes a POSIX command line carries: UTF-8, U+DC80..U+DCFF standing for the raw bytes 0x80..0xFF"""
+    out = bytearray()
+    for ch in u:
+        cp = ord(ch)
+        if 0xDC80 <= cp <= 0xDCFF:
+            out.append(cp - 0xDC00)
+        else:
+            out.extend(ch.encode("utf-8"))
+    return bytes(out)
+
+
+def cli_process(argv, stdin):
+    """the calculator as a REAL child process of this interpreter (real standard streams: what they can be asked to do differs
+    between interpreter versions): exit status and the bytes written to stdout"""
+    import binascii
+    import os
+    import subprocess
+    env = dict(os.environ)
+    env["PYTHONIOENCODING"] = "utf-8"
+    p = subprocess.Popen([to_bytes(sys.executable if not isinstance(sys.executable, bytes) else sys.executable.decode("utf-8")), b"-m", b"cvss.cvss_calculator"] + [to_bytes(a) for a in argv],
+                         stdin=subprocess.PIPE, stdout=subprocess.PIPE, stderr=subprocess.PIPE, env=env)
+    data = b"" if stdin is None else b"".join(to_bytes(l) + b"\n" for l in stdin)
+    out, err = p.communicate(data)
+    if stdin is not None and not any(a.startswith("--vector") or a == "-v" for a in argv):
+        idx = max(out.rfind(b"\nCVSS2\n"), out.rfind(b"\nCVSS3\n"), out.rfind(b"\nCVSS4\n"))
+        out = out[idx:] if idx >= 0 else b""
+    return {"status": p.returncode, "out_hex": binascii.hexlify(out).decode("ascii"), "traceback": b"Traceback" in err}
+
+
 def evaluate(it):
     from cvss import CVSS2, CVSS3, CVSS4
     from cvss.parser import parse_cvss_from_text
@@ -183,6 +213,8 @@ def evaluate(it):
         return interactive(it[1], it[2], it[3])
     if k == "cli":
         return cli(it[1], it[2])
+    if k == "cli-process":
+        return cli_process(it[1], it[2])
     raise ValueError(k)
 
 
